@@ -142,6 +142,21 @@ func runCheck(def *CheckDef, tier string, seed int, noKnown, noReplay bool, only
 		}
 	}
 	jobs := def.Jobs(tier)
+	if tier == "thorough" {
+		// the thorough tier includes every quick-tier job (same name: the thorough definition wins), so that a
+		// scenario added to the quick tier can never be missing from the deeper run (and its reach labels with it)
+		have := map[string]bool{}
+		for _, j := range jobs {
+			have[j.Name] = true
+		}
+		var extra []JobSpec
+		for _, j := range def.Jobs("quick") {
+			if !have[j.Name] {
+				extra = append(extra, j)
+			}
+		}
+		jobs = append(extra, jobs...)
+	}
 	checkBudget := 60 * time.Minute
 	if v, err := strconv.Atoi(os.Getenv("VERIF_THOROUGH_MIN")); err == nil && v > 0 {
 		checkBudget = time.Duration(v) * time.Minute
